@@ -163,7 +163,9 @@ def _block(block, agg):
     if first == "UNI":
         it = list(texts(n, UNI_ALPHABET))
     elif first is None:
-        it = list(EXTRA_TEXTS)
+        from mc.gen import wild
+        # hand-picked texts + every non-canonical snippet of the language (disabled preprocessor regions, templates, decorators ...)
+        it = list(EXTRA_TEXTS) + [t for _n, t in wild.snippets(lang)]
     else:
         it = (first + "".join(t) for k in range(0, n) for t in itertools.product(alphabet, repeat=k))
     for text in it:
